@@ -19,7 +19,11 @@ TRUSTED readings (all in this file, each used exactly where its source text occu
     `Uniform<u64>`); `Uniform::new_inclusive(lo, hi)` = the pair `(lo, hi)`, panicking (`.error .refused`) when `lo > hi` (rand 0.8.5);
     an integer literal pair gives `Uniform<i32>` (Rust's integer fallback), a `u64` operand gives `Uniform<u64>`;
   * FLOAT_TESTS: the two `are_close_f64` tests on compile-time constants, read as tests on the constants of Gen/Rng.lean;
-  * `parms.coeff_modulus()` = the list `qs` of modulus VALUES (`coeff_modulus[j].value()` = `qs[j]`), `parms.poly_modulus_degree()` = `n`."""
+  * `parms.coeff_modulus()` = the list `qs` of modulus VALUES (`coeff_modulus[j].value()` = `qs[j]`), `parms.poly_modulus_degree()` = `n`;
+  * `contains_readings` / `expand_readings`: skeletons of `Ciphertext::contains_seed` / `expand_seed` (src/text.rs) over the flat data buffer
+    (`poly(i)` / `poly_mut(i)` / `poly_component_mut(1, 0)` as sub-slices, the six raw-pointer statements that fetch the stored seed = the
+    little-endian bytes of the 8 words after the flag word, `.error .oob` when they are not inside the buffer).
+Also translated: `SeedableRng::from_seed` (struct literal with `[0; BUFFER_SIZE]`)."""
 import re, os, hashlib
 
 RUF = "src/util/random_generator.rs"
